@@ -19,6 +19,7 @@ import (
 	"strings"
 	"time"
 
+	"github.com/fsnotify/fsnotify"
 	"github.com/hyperledger/firefly-common/pkg/config"
 	"github.com/hyperledger/firefly-signer/pkg/eip712"
 	"github.com/hyperledger/firefly-signer/pkg/ethsigner"
@@ -54,6 +55,7 @@ type hop struct {
 	Kind    int    `json:"kind,omitempty"`
 	Content []byte `json:"content,omitempty"`
 	Want    []byte `json:"-"` // address the generator meant the request to name (nil: none)
+	Barrier []byte `json:"-"` // write of a fresh matching file: wait until the listener has reported this address
 	Tx1559  bool   `json:"tx1559,omitempty"`
 	// observations
 	Cls      int      `json:"cls"`
@@ -171,6 +173,7 @@ func buildConf(c *wcase) *fswallet.Config {
 }
 
 var confDiffs int
+var listenerUnavailable int
 
 func runCase(c *wcase, base string) {
 	cwd, _ := os.Getwd()
@@ -191,6 +194,16 @@ func runCase(c *wcase, base string) {
 		}
 	}
 	ctx := context.Background()
+	if c.Listener {
+		// when the OS cannot give us a watcher (inotify instance limit under parallel runs), run the case
+		// without the listener instead of reporting the environment as a defect
+		if wt, err := fsnotify.NewWatcher(); err != nil {
+			c.Listener = false
+			listenerUnavailable++
+		} else {
+			wt.Close()
+		}
+	}
 	conf := *buildConf(c)
 	var w fswallet.Wallet
 	func() {
@@ -215,6 +228,7 @@ func runCase(c *wcase, base string) {
 		w.Close()
 	}()
 	initialised := false
+	initialisedOK := false
 	for _, h := range c.Hist {
 		func() {
 			defer func() {
@@ -229,6 +243,7 @@ func runCase(c *wcase, base string) {
 				if !initialised {
 					err = w.Initialize(ctx)
 					initialised = true
+					initialisedOK = err == nil
 				} else {
 					err = w.Refresh(ctx)
 				}
@@ -296,14 +311,26 @@ func runCase(c *wcase, base string) {
 				if err := materialise(fsEntry{Path: h.Path, Kind: h.Kind, Content: h.Content}); err != nil {
 					panic(fmt.Sprintf("harness: write %s: %s", h.Path, err))
 				}
-				if c.Listener {
-					time.Sleep(40 * time.Millisecond)
+				if c.Listener && h.Barrier != nil && initialisedOK {
+					// events are delivered in order: once the listener has reported the barrier file, every
+					// earlier change has been processed
+					deadline := time.Now().Add(5 * time.Second)
+					for time.Now().Before(deadline) {
+						acc, _ := w.GetAccounts(ctx)
+						found := false
+						for _, a := range acc {
+							if string(a[:]) == string(h.Barrier) {
+								found = true
+							}
+						}
+						if found {
+							break
+						}
+						time.Sleep(2 * time.Millisecond)
+					}
 				}
 			case "remove":
 				os.Remove(h.Path)
-				if c.Listener {
-					time.Sleep(40 * time.Millisecond)
-				}
 			}
 		}()
 	}
@@ -631,6 +658,7 @@ func main() {
 	st.Evaluations = st.Distribution["requests"] + st.Distribution["op:accounts"] + st.Distribution["op:refresh"] + st.Distribution["constructor-error"]
 	st.Extra["wallets"] = w.Count()
 	st.Extra["configurations_read_differently_by_ReadConfig"] = confDiffs
+	st.Extra["listener_unavailable_downgraded"] = listenerUnavailable
 	st.Rule = "one case = one wallet (configuration x temporary directory) with a history of 8-18 operations; evaluations = key requests (Sign / SignTypedDataV4 / GetWalletFile) + GetAccounts + Initialize/Refresh observations compared with the model; distinct_nontrivial = distinct (configuration class, file layout of the requested address, request form, cached or not, outcome) combinations among key requests, excluding requests for addresses unknown to the wallet"
 	if err := st.Write(filepath.Join(*out, "stats_C08.json")); err != nil {
 		panic(err)
